@@ -27,9 +27,10 @@ ALIAS_TAGS = ['content', 'seg_content', 'seg_sop', 'ann_content', 'ann_sop', 'ko
 CTOR_TAGS = ['base', 'content', 'seg_content', 'seg_sop', 'pm_content', 'pm_sop', 'sc_sop', 'sr_coding', 'sr_content', 'sr_sop',
              'sr_value_types', 'sr_templates', 'ko_content', 'ko_sop', 'ann_content', 'ann_sop', 'pr_content', 'pr_sop', 'legacy_sop',
              'volume', 'coding_schemes', 'color', 'image', 'io', 'spatial', 'sr_utils', 'uid']
-TARGETS = ['T20vr', 'T20uid', 'T20sites', 'T20ds', 'T20pkg', 'T20calls'] + ['T20alias_' + t for t in ALIAS_TAGS] + ['T20ctor_' + t for t in CTOR_TAGS]
+TARGETS = ['T20vr', 'T20uid', 'T20sites', 'T20ds', 'T20pkg', 'T20calls', 'T20pyd', 'T20shared'] + ['T20alias_' + t for t in ALIAS_TAGS] + ['T20ctor_' + t for t in CTOR_TAGS]
 LEAN_MODULES = ['HdVerif.Props.C20']
-MODEL_MODULES = ['HdVerif.Model.VR', 'HdVerif.Model.VRGuards', 'HdVerif.Model.Aliasing', 'HdVerif.Model.AliasTables']
+MODEL_MODULES = ['HdVerif.Model.VR', 'HdVerif.Model.VRGuards', 'HdVerif.Model.Aliasing', 'HdVerif.Model.AliasConcrete',
+                 'HdVerif.Model.AliasTables']
 NAMESPACE = 'HdVerif.C20'
 DRIVER = 'Drivers/C20.lean'
 RULE = ('(a) guards: every string up to length 3 over a 14-letter alphabet (thorough: 4) plus random longer strings around '
@@ -374,6 +375,13 @@ def _vr_valid(vr, s):
     return len(s) <= {'ST': 1024, 'LT': 10240}[vr] and all(c in '\t\n\x0c\r\x1b' for c in ctrl)
 
 
+def _pyd_validate(vr, s):
+    """pydicom's validator as applied under strict validation (raises ValueError when it refuses)"""
+    import pydicom.config
+    from pydicom.valuerep import validate_value
+    validate_value(vr, s, pydicom.config.RAISE)
+
+
 def _check_guards(ctx):
     import warnings
     from highdicom import valuerep
@@ -405,6 +413,21 @@ def _check_guards(ctx):
                 ctx.fail({'guard': py, 's': s}, f'guard refused a str with {impl[1]} instead of ValueError', site='valuerep/' + py)
             reqs.append((lean, {'s': cps}))
             pend.append(({'guard': py, 's': s}, impl))
+            # pydicom's own rule for the VR (what its validator lets through when the value is assigned / written strictly):
+            # model of the regenerated rule table vs the real validator, and oracle: accepted by the guard => accepted by pydicom
+            try:
+                _pyd_validate(vrs[py], s)
+                pimpl = ('ok', True)
+            except ValueError:
+                pimpl = ('ok', False)
+            except Exception as e:  # noqa: BLE001
+                pimpl = ('err', _err_kind(e))
+            ctx.case(nontrivial_key=('pydicom_rule', vrs[py], s) if s else None, pydicom_rule=f'{vrs[py]}:{pimpl[1]}')
+            if ok and pimpl != ('ok', True):
+                ctx.fail({'guard': py, 's': s}, f'guard accepted a value pydicom\'s validator refuses for VR {vrs[py]}',
+                         site='valuerep/' + py)
+            reqs.append(('pydAccepts', {'vr': vrs[py], 's': cps}))
+            pend.append(({'guard': 'pydicom_rule:' + vrs[py], 's': s}, pimpl))
         # person name: warns or not
         with warnings.catch_warnings(record=True) as w:
             warnings.simplefilter('always')
